@@ -127,10 +127,16 @@ SPEC = {
                         "correspondence compares after every step", "rename to the placeholder '*' is outside the model"],
     },
     "C13": {
-        "LEAN": {"modules": ["GfaProofs.C13"], "support": ["GfaModel.Version"],
-                 "theorems": ["Gfa.C13.build_eq_spec", "Gfa.C13.build_perm", "Gfa.C13.queued_once", "Gfa.C13.accepted_version",
+        "LEAN": {"modules": ["GfaProofs.C13", "GfaProofs.C13Rgfa", "GfaProofs.Bridge.Rgfa"], "support": ["GfaModel.Version", "GfaModel.Rgfa"],
+                 "theorems": ["Gfa.C13Rgfa.rgfa_ok_iff", "Gfa.C13Rgfa.rgfa_gfa2_refused", "Gfa.C13Rgfa.tagsComplaint_none",
+                              "Gfa.Bridge.Rgfa.mandatory_table", "Gfa.Bridge.Rgfa.optional_table", "Gfa.C13.build_eq_spec", "Gfa.C13.build_perm", "Gfa.C13.queued_once", "Gfa.C13.accepted_version",
                               "Gfa.C13.unknown_run", "Gfa.C13.steps_known", "Gfa.C13.verdict_known"]},
-        "ASSUMPTIONS": ["lines are abstracted to their version-relevant kind (10 kinds); vlevel >= 1"],
+        "ASSUMPTIONS": ["lines are abstracted to their version-relevant kind (10 kinds); vlevel >= 1",
+                        "the rGFA dialect check validate_rgfa() is modelled on the graph (Rgfa.lean; tag table bridged from gfapy/rgfa.py) and "
+                        "compared with the library on rGFA documents with departures; proved: it accepts exactly the GFA1 graphs without H/C/P lines "
+                        "whose segments carry SN:Z SO:i SR:i, whose links carry SR/L1/L2 only as integers and whose overlaps are 0M (rgfa_ok_iff), and "
+                        "GFA2 content is a VersionError (rgfa_gfa2_refused); how the dialect parameter interacts with version inference while lines "
+                        "arrive is decided by the oracle"],
     },
     "C14": {
         "LEAN": {"modules": ["GfaProofs.Bridge.Seq", "GfaProofs.C14", "GfaProofs.C14Paths", "GfaProofs.C14Cover", "GfaProofs.C14Merge", "GfaProofs.C16"],
